@@ -23,7 +23,7 @@ RULE = ("a probe model M is observed (argument names and values, state map, RHS 
         "process-global caches are recorded; non-trivial = history contains >= 1 compile of a model related to M; distinct = "
         "distinct (M, history) hash")
 DECIDING = ['observations_compared', 'earlier_functions_rechecked', 'hist_steps', 'hist_compiles', 'hist_no_clear_compiles',
-            'hist_exceptions', 'hist_same_opname', 'hist_same_objects', 'shared_subcircuit_cases', 'hist_shared_update_var']
+            'hist_exceptions', 'hist_same_opname', 'hist_same_objects', 'shared_subcircuit_cases', 'hist_shared_update_var', 'input_history_cases']
 ASSUMPTIONS = ['the probe model is observed through fresh template objects built from its spec (the state carry-over of a '
                'template object is documented statefulness, DESIGN 4a)']
 CASE_TIMEOUT = 300
@@ -41,6 +41,9 @@ def plan(tier, seed):
         cases += [{'family': fam, 'cseed': rnd.randrange(1 << 30), 'want': feat} for _ in range(k)]
     # circuits that share sub-circuit template OBJECTS over several hierarchy levels with the probe model
     cases += [{'family': 'shared_subcircuits', 'cseed': rnd.randrange(1 << 30)} for _ in range(30 if tier == 'quick' else 600)]
+    # simulations with extrinsic inputs after earlier simulations with similar inputs (same variable, same shape, same first and
+    # last samples, more than 1000 samples)
+    cases += [{'family': 'input_history', 'cseed': rnd.randrange(1 << 30)} for _ in range(20 if tier == 'quick' else 400)]
     return cases
 
 
@@ -344,9 +347,102 @@ def first_diff(a, b, path=''):
     return None
 
 
+def _run_with_input(spec, in_key, arr, keys, clear=True, template=None):
+    df = observe.run_model(spec, T=len(arr) * 1e-3, dt=1e-3, dts=1e-2, outputs={f'o{i}': '/'.join(k) for i, k in enumerate(keys)},
+                           vectorize=False, inputs={'/'.join(in_key): arr.copy()}, clear=clear, template=template)
+    return df.values.tolist()
+
+
+def _fresh_run_with_input(spec, in_key, arr, keys):
+    r, w = os.pipe()
+    pid = os.fork()
+    if pid == 0:
+        os.close(r)
+        try:
+            o = ('ok', _run_with_input(spec, in_key, arr, keys))
+        except BaseException as e:  # noqa
+            o = ('err', f'{type(e).__name__}: {e}')
+        with os.fdopen(w, 'wb') as f:
+            pickle.dump(o, f)
+        os._exit(0)
+    os.close(w)
+    with os.fdopen(r, 'rb') as f:
+        data = f.read()
+    os.waitpid(pid, 0)
+    return pickle.loads(data)
+
+
+def run_input_case(case, ctx):
+    """M is simulated with input array B in a pristine process, and in this process after 1-3 earlier simulations (of M or of
+    another model with an input variable of the same name) whose input arrays have B's shape and B's first and last samples."""
+    rnd = random.Random(case['cseed'])
+    mech = {}
+    for _ in range(200):
+        M, feats, risk = gen.gen_net(rnd, pool=gen.SAFE_POOL, n_nodes=rnd.choice([1, 2]), max_types=2, depth=0, forbid=ctx['excluded'],
+                                     edge_density=0.3)
+        ref = RefModel(M)
+        ins = [k for k in ref.param_keys if ref.kind[k] == 'in' and not ref._intra_sources(k)]
+        if ins:
+            break
+    in_key = rnd.choice(ins)
+    keys = list(ref.state_keys)[:4]
+    N = 10 * rnd.randint(101, 115)
+    nrs = np.random.RandomState(case['cseed'] % (2 ** 31))
+
+    def pulse():
+        a = nrs.standard_normal(N)
+        a[:4] = 0.0
+        a[-4:] = 0.0
+        return a
+    B = pulse()
+    hist = [{'model': rnd.choice(['M', 'M', 'other']), 'clear': rnd.random() < 0.7} for _ in range(rnd.randint(1, 3))]
+    res = {'features': ['input_history'] + sorted({h['model'] for h in hist}), 'risk': [], 'sig': stable_hash([M, hist, N]),
+           'nontrivial': True}
+    if any(not h['clear'] for h in hist):
+        res['risk'] = ['no_clear_any']
+    try:
+        st, fresh = _fresh_run_with_input(M, in_key, B, keys)
+        if st != 'ok':
+            raise observe.Mismatch(f'loud: probe simulation fails in a pristine process: {fresh}')
+        # another model with an input variable of the same operator/variable name
+        other = copy.deepcopy(M)
+        for o in other['ops'].values():
+            for v, d in o['vars'].items():
+                if d[0] == 'const':
+                    d[1] = round(d[1] * 1.3 + 0.05, 4)
+        for i, h in enumerate(hist):
+            try:
+                _run_with_input(M if h['model'] == 'M' else other, in_key, pulse(), keys, clear=h['clear'])
+            except Exception as e:
+                import traceback
+                raise observe.Mismatch(f"loud: history simulation {i} {h} raised {type(e).__name__}: {e} :: {traceback.format_exc()[-300:]}")
+            mech['hist_compiles'] = mech.get('hist_compiles', 0) + 1
+            if not h['clear']:
+                mech['hist_no_clear_compiles'] = mech.get('hist_no_clear_compiles', 0) + 1
+        mech['hist_steps'] = len(hist)
+        try:
+            after = _run_with_input(M, in_key, B, keys)
+        except Exception as e:
+            import traceback
+            raise observe.Mismatch(f"loud: probe simulation fails after history {hist}: {type(e).__name__}: {e} :: {traceback.format_exc()[-300:]}")
+        d = first_diff(fresh, after)
+        mech['observations_compared'] = 1
+        mech['input_history_cases'] = 1
+        if d:
+            raise observe.Mismatch(f"simulation with a {N}-sample input differs from the pristine one at {d} after {len(hist)} earlier "
+                                   f"simulation(s) {hist} with input arrays of the same shape and the same first/last samples")
+        res.update(status='ok', symptom='', mech=mech, sample={'history': hist, 'N': N, 'input': '/'.join(in_key)})
+    except observe.Mismatch as e:
+        s2 = str(e)
+        res.update(status='violation', symptom=('silent: ' if 'loud' not in s2 else '') + s2, mech=mech, spec={'M': M})
+    return res
+
+
 def run_case(case, ctx):
     if case.get('family') == 'shared_subcircuits':
         return run_shared_case(case, ctx)
+    if case.get('family') == 'input_history':
+        return run_input_case(case, ctx)
     rnd = random.Random(case['cseed'])
     if case.get('spec') is not None:
         models, steps = case['spec'], case['steps']
